@@ -96,7 +96,8 @@ fn(FF, 'coequalizer', self_ty='FiniteFunction', status='P', props=['C06', 'C05',
    requires=['self.wf()', 'other.wf()'],
    ensures=[('C06.coeq-defined', 'r.is_some() <==> (self.table@.len() == other.table@.len() && self.target == other.target)'),
             ('C06.coeq', 'r.is_some() ==> is_coeq(r.unwrap().table@, r.unwrap().target as int, self.table@, other.table@, self.target as int)'),
-            ('C05.coeq-wf', 'r.is_some() ==> r.unwrap().wf()')])
+            ('C05.coeq-wf', 'r.is_some() ==> r.unwrap().wf()'),
+            ('C06.coeq-count', 'r.is_some() ==> r.unwrap().target <= self.target')])
 fn(FF, 'coequalizer_universal', self_ty='FiniteFunction', status='P', props=['C06', 'C05'], rules={'asref': True, 'drop_into': True},
    requires=['self.wf()', 'self.table@.len() == 0 ==> self.target == 0'],
    ensures=[('C06.universal-iff', 'r.is_some() <==> (self.table@.len() == f.table@.len() && constant_on_fibres(self.table@, f.table@))'),
